@@ -484,4 +484,57 @@ theorem exec_partitions (winsOf : Wins) (step : Step Val) (st : XSt Val) (parts 
     simp only [List.foldl_cons, List.flatten_cons]
     rw [ih, exec_append]
 
+/-! ### "steps in sequence order" follows from "consecutive writes" -/
+
+theorem wseqs_trace (winsOf : Wins) (T : List (List Vtx)) (κ : Nat) :
+    wseqs κ (allWrites (T.map (genOfV winsOf))) = (T.flatten.filter (·.kind == κ)).map (·.seq) := by
+  induction T with
+  | nil => rfl
+  | cons vs T ih =>
+    have h1 : allWrites ((vs :: T).map (genOfV winsOf)) = (genOfV winsOf vs).writes ++ allWrites (T.map (genOfV winsOf)) := by
+      simp [allWrites]
+    rw [h1, wseqs_append, ih]
+    simp only [List.flatten_cons, List.filter_append, List.map_append]
+    congr 1
+    simp only [wseqs, genOfV, List.filter_map, List.map_map]
+    rfl
+
+/-- if every node writes the consecutive sequence numbers `0, 1, 2, …` over the whole trace and a generation holds at most
+one cell per node, then a cell's sequence number is the number of its node's steps executed before its generation -/
+theorem hseq_of_consec (winsOf : Wins) (T : List (List Vtx))
+    (hcons : ∀ κ, ∃ n, wseqs κ (allWrites (T.map (genOfV winsOf))) = consec 0 n)
+    (hnd : T.flatten.Nodup)
+    (hkinds : ∀ vs ∈ T, ∀ v ∈ vs, ∀ w ∈ vs, w.kind = v.kind → w = v) :
+    ∀ pre vs post, T = pre ++ vs :: post → ∀ v ∈ vs, v.seq = ((cnt v.kind pre : Nat) : Int) := by
+  intro pre vs post hT v hv
+  obtain ⟨n, hn⟩ := hcons v.kind
+  rw [wseqs_trace] at hn
+  have hvsT : vs ∈ T := by rw [hT]; simp
+  have hflat : T.flatten = pre.flatten ++ vs ++ post.flatten := by rw [hT]; simp
+  have hndvs : vs.Nodup := by
+    rw [hflat] at hnd
+    exact ((List.nodup_append.mp (List.nodup_append.mp hnd).1).2.1)
+  obtain ⟨A, Bv, hsplit⟩ := List.append_of_mem hv
+  -- no cell of the same node before `v` in its generation
+  have hA : A.filter (·.kind == v.kind) = [] := by
+    rw [List.filter_eq_nil_iff]
+    intro w hw hk
+    have hwv : w = v := hkinds vs hvsT v hv w (by rw [hsplit]; exact List.mem_append_left _ hw) (by simpa using hk)
+    rw [hsplit] at hndvs
+    have := (List.nodup_append.mp hndvs).2.2 w hw v (by simp)
+    exact this hwv
+  rw [hflat, hsplit] at hn
+  simp only [List.filter_append, List.map_append, List.filter_cons, beq_self_eq_true, if_true, hA, List.map_nil,
+    List.map_cons, List.append_assoc] at hn
+  -- hn : F(pre).map seq ++ (v.seq :: rest) = consec 0 n
+  have hpre := consec_prefix 0 n ((pre.flatten.filter (·.kind == v.kind)).map (·.seq) ++ [v.seq]) _ (by
+    rw [List.append_assoc]; exact hn)
+  have hlen : ((pre.flatten.filter (·.kind == v.kind)).map (·.seq) ++ [v.seq]).length = cnt v.kind pre + 1 := by
+    rw [List.length_append, List.length_map, List.length_singleton, cnt, List.countP_eq_length_filter]
+  rw [hlen, consec_succ_eq] at hpre
+  have := List.append_inj' hpre rfl
+  have h2 := this.2
+  simp only [List.cons.injEq, and_true] at h2
+  omega
+
 end Rex.Sched
